@@ -21,7 +21,9 @@ NOT_DECIDED = "evaluation equality on datasets (follows from R1-R3 under the con
 def check(run: Run) -> None:
     m = run.model
     outer = m.find_func("change_extension_functions_to_calls", in_module="func_adl.ast.func_adl_ast_utils")
-    classes = [c for c in m.classes.values() if c.parent_func is outer and m.is_transformer(c)]
+    from ..lib import used_visitor
+
+    classes = [used_visitor(m, TermCtx(m, max_depth=2), outer, True)]
     if len(classes) != 1:
         raise AnalysisError(f"expected one NodeTransformer inside change_extension_functions_to_calls, found {len(classes)}")
     cls = classes[0]
